@@ -18,9 +18,11 @@
      fragments carried by the record numbers it acknowledges (the harness resolves record numbers
      against what the peer emitted; reliable_flight.go's number->fragment map is then checked by
      the predicted retransmissions);
-   - the future-epoch queue and the list of records still to be acknowledged are kept as
-     duplicate-free lists in arrival order: processing a second copy of a queued record changes
-     nothing but the multiplicity of its entry in the next ACK, and acknowledging is idempotent;
+   - the future-epoch queue, the fragment buffer and the list of records still to be acknowledged
+     are kept as SETS (duplicate-free, in a canonical order): the order of arrival and a second
+     copy of a queued record change nothing but the order and multiplicity of the entries of the
+     next ACK, and acknowledging is idempotent and order-independent; an ACK is therefore compared
+     with the implementation as the set of fragments it acknowledges;
    - delivering the same datagram instance twice is inert (record replay window, C06): the timed
      system ignores the second delivery.
    Numbers are N (milliseconds for time).  Definitions only. *)
@@ -54,7 +56,15 @@ Definition rec_frag (r : rec) : option frag :=
 
 Fixpoint fmem (f : frag) (l : list frag) : bool :=
   match l with [] => false | g :: l' => frag_eqb f g || fmem f l' end.
-Definition fadd (f : frag) (l : list frag) : list frag := if fmem f l then l else l ++ [f].
+Definition frag_ltb (a b : frag) : bool :=
+  let '(a1, a2, a3) := a in let '(b1, b2, b3) := b in
+  (a1 <? b1) || (N.eqb a1 b1 && ((a2 <? b2) || (N.eqb a2 b2 && (a3 <? b3)))).
+(* sets of fragments: duplicate-free, sorted *)
+Fixpoint fadd (f : frag) (l : list frag) : list frag :=
+  match l with
+  | [] => [f]
+  | g :: l' => if frag_eqb f g then l else if frag_ltb f g then f :: l else g :: fadd f l'
+  end.
 Definition fadd_all (fs l : list frag) : list frag := fold_left (fun acc f => fadd f acc) fs l.
 Definition fremove (f : frag) (l : list frag) : list frag := filter (fun g => negb (frag_eqb f g)) l.
 
@@ -75,6 +85,27 @@ Definition rec_eqb (a b : rec) : bool :=
   N.eqb (r_ep a) (r_ep b) && body_eqb (r_body a) (r_body b) && N.eqb (r_size a) (r_size b).
 Fixpoint rmem (r : rec) (l : list rec) : bool :=
   match l with [] => false | g :: l' => rec_eqb r g || rmem r l' end.
+
+(* a total order on records (only used to keep sets of records in a canonical order) *)
+Definition frag_key (f : frag) : list N := let '(a, b, c) := f in [a; b; c].
+Definition rec_key (r : rec) : list N :=
+  r_ep r :: match r_body r with
+            | Hs h m o l t => [0; m; o; l; h; t]
+            | Ack fs => 1 :: N.of_nat (length fs) :: flat_map frag_key fs
+            end.
+Fixpoint lcmp (a b : list N) : comparison :=
+  match a, b with
+  | [], [] => Eq
+  | [], _ => Lt
+  | _, [] => Gt
+  | x :: a', y :: b' => match N.compare x y with Eq => lcmp a' b' | c => c end
+  end.
+Fixpoint rins (r : rec) (l : list rec) : list rec :=
+  match l with
+  | [] => [r]
+  | x :: l' => if rec_eqb r x then l
+               else match lcmp (rec_key r) (rec_key x) with Lt => r :: l | _ => x :: rins r l' end
+  end.
 
 (* ---------- configuration ---------- *)
 
@@ -204,6 +235,14 @@ Definition fb_advance (e : ep) : ep :=
          (e_cache e) (e_repoch e) (e_lepoch e) (e_queue e) (e_toack e)
   else e.
 
+Definition sfrag_ltb (a b : sfrag) : bool :=
+  let '(m1, _, o1, _, _, _) := a in let '(m2, _, o2, _, _, _) := b in (m1 <? m2) || (N.eqb m1 m2 && (o1 <? o2)).
+Fixpoint sins (f : sfrag) (l : list sfrag) : list sfrag :=
+  match l with
+  | [] => [f]
+  | g :: l' => if sfrag_ltb f g then f :: l else g :: sins f l'
+  end.
+
 Definition same_slot (m foff : N) (f : sfrag) : bool :=
   let '(m', _, foff', _, _, _) := f in N.eqb m m' && N.eqb foff foff'.
 
@@ -242,7 +281,7 @@ Definition push (e0 : ep) (f : sfrag) : ep * bool :=
   if m <? e_fbcur e then (e, true)
   else if N.eqb fl 0 && (negb (N.eqb tl 0) || negb (N.eqb foff 0)) then (e, false)
   else
-    let fs := if existsb (same_slot m foff) (e_frags e) then e_frags e else e_frags e ++ [f] in
+    let fs := if existsb (same_slot m foff) (e_frags e) then e_frags e else sins f (e_frags e) in
     let e1 := set_rx e (e_recvseq e) (e_fbcur e) fs (e_cache e) (e_repoch e) (e_lepoch e) (e_queue e) (e_toack e) in
     (pop_all (S (length fs)) e1, false).
 
@@ -252,7 +291,7 @@ Definition max_queue : nat := 100.
 
 Definition enqueue (lease : bool) (e : ep) (r : rec) : ep :=
   if lease && Nat.ltb (length (e_queue e)) max_queue && negb (rmem r (e_queue e))
-  then set_rx e (e_recvseq e) (e_fbcur e) (e_frags e) (e_cache e) (e_repoch e) (e_lepoch e) (e_queue e ++ [r]) (e_toack e)
+  then set_rx e (e_recvseq e) (e_fbcur e) (e_frags e) (e_cache e) (e_repoch e) (e_lepoch e) (rins r (e_queue e)) (e_toack e)
   else e.
 
 (* a protected record of epoch ep can be opened: read keys for the remote epoch exist and the
